@@ -2113,6 +2113,20 @@ func (s *sequenceState) opLock(args *nfsv4.Lock4args) nfsv4.Lock4res {
 			defer los.decreaseFileCount()
 		}
 		lofs = oofs.lockOwnerFiles[los]
+		if lofs == nil && ok {
+			// The lock-owner may already hold locks on this
+			// file through another open-owner of the client.
+			// Byte-range locks are owned by the lock-owner,
+			// so there may only be a single lock-owner file
+			// that accounts for them. Reuse it.
+			for _, existingLOFS := range cis.lockOwnerFilesByOther {
+				if existingLOFS.lockOwner == los && existingLOFS.openOwnerFile.openedFile == oofs.openedFile {
+					lofs = existingLOFS
+					oofs = existingLOFS.openOwnerFile
+					break
+				}
+			}
+		}
 	case *nfsv4.Locker4_FALSE:
 		// Add additional lock to existing lock-owner file.
 		var st nfsv4.Nfsstat4
